@@ -31,25 +31,27 @@ FlagSpace == [ np     : 1..4,                       \* pages
                                                     \* place (emboldening by overprinting) - still on no other page
                drift  : {"none", "x", "y"},         \* the same top-band word on every page, but never twice at one place:
                                                     \* same height and another x on each page / same x and another height
+               hnum   : BOOLEAN,                    \* the running header carries a number that is not a page number ("... 2024")
                grid   : BOOLEAN,                    \* the last page is a column of 40 one-digit cells: its fragments average
                                                     \* <= 2 characters (a "character-level" page) while the other pages do not
                short  : BOOLEAN,                    \* last page has little content (content bounds << page)
                cover  : BOOLEAN ]                   \* page 1 is a cover: no running header, footer line or page number
 
-\* keys: 1 header A, 2 header B, 3 "Page #", 4 "#", 5 footer line, 6 repeating body line, 7 title,
+\* keys: 1 header A, 2 header B (11, 12: the same with a constant number in the text), 3 "Page #", 4 "#", 5 footer line, 6 repeating body line, 7 title,
 \*       8 drifting word, 100+p*10+i unique body lines
 F(b, s, k, n) == [band |-> b, slot |-> s, key |-> k, num |-> n]
 
+HKey(fl, k) == IF fl.hnum THEN 10 + k ELSE k
 PageOf(fl, p) ==
     (IF fl.title # "none" /\ p = 1 THEN <<F("Top", 2, 7, FALSE)>> ELSE <<>>)
     \o (IF fl.title = "twice" /\ p = 1 THEN <<F("Top", 2, 7, FALSE)>> ELSE <<>>)
     \o (CASE fl.cover /\ p = 1 -> <<>>
-          [] fl.hdr = "all" -> <<F("Top", 1, 1, FALSE)>>
-          [] fl.hdr = "oddeven" -> <<F("Top", 1, IF p % 2 = 1 THEN 1 ELSE 2, FALSE)>>
+          [] fl.hdr = "all" -> <<F("Top", 1, HKey(fl, 1), FALSE)>>
+          [] fl.hdr = "oddeven" -> <<F("Top", 1, IF p % 2 = 1 THEN HKey(fl, 1) ELSE HKey(fl, 2), FALSE)>>
           [] OTHER -> <<>>)
     \o (IF fl.drift = "x" THEN <<F("Top", 10 + p, 8, FALSE)>> ELSE IF fl.drift = "y" THEN <<F("Top", 20 + p, 8, FALSE)>> ELSE <<>>)
     \* on a short page the body lines sit right below the top band
-    \o (IF fl.beqh THEN <<F("Body", IF fl.short /\ p = fl.np THEN 9 ELSE 3, 1, FALSE)>> ELSE <<>>)
+    \o (IF fl.beqh THEN <<F("Body", IF fl.short /\ p = fl.np THEN 9 ELSE 3, HKey(fl, 1), FALSE)>> ELSE <<>>)
     \o (IF fl.bnum THEN <<F("Body", IF fl.short /\ p = fl.np THEN 8 ELSE 4, 4, TRUE)>> ELSE <<>>)
     \o (IF fl.grid /\ p = fl.np /\ fl.np >= 2 THEN [k \in 1..40 |-> F("Body", 100 + k, 200 + (k % 10), TRUE)]
         ELSE IF fl.short /\ p = fl.np THEN <<>> ELSE <<F("Body", 5, 100 + p * 10 + 1, FALSE), F("Body", 6, 100 + p * 10 + 2, FALSE)>>)
@@ -60,7 +62,7 @@ PageOf(fl, p) ==
 
 DocOf(fl) == [p \in 1..fl.np |-> PageOf(fl, p)]
 
-Init == /\ flags \in {f \in FlagSpace : f.grid => (f.np >= 2 /\ ~f.short /\ ~f.brep /\ ~f.bnum /\ ~f.beqh /\ f.drift = "none")} /\ doc = DocOf(flags) /\ opt \in {"headers", "footers", "both"}
+Init == /\ flags \in {f \in FlagSpace : (f.hnum => (f.hdr # "none" /\ ~f.grid /\ ~f.brep /\ ~f.bnum /\ f.drift = "none" /\ f.title = "none")) /\ (f.grid => (f.np >= 2 /\ ~f.short /\ ~f.brep /\ ~f.bnum /\ ~f.beqh /\ f.drift = "none"))} /\ doc = DocOf(flags) /\ opt \in {"headers", "footers", "both"}
 Next == FALSE /\ UNCHANGED vars
 Spec == Init /\ [][Next]_vars
 
